@@ -147,7 +147,41 @@ sys.exit(0)
 '''
 
 
+TO_MODEL_PROTO = '''
+import sys, os, tempfile, importlib.util
+src = """
+from onnxscript import script, FLOAT
+from onnxscript import opset18 as op
+deco = script(default_opset=op)
+
+@deco
+def square(x: FLOAT[2]) -> FLOAT[2]:
+    return x * x
+
+@deco
+def cube(x: FLOAT[2]) -> FLOAT[2]:
+    return x * x * x
+"""
+d = tempfile.mkdtemp(); path = os.path.join(d, "tmp_case.py"); open(path, "w").write(src)
+spec = importlib.util.spec_from_file_location("tmp_case", path); mod = importlib.util.module_from_spec(spec); sys.modules["tmp_case"] = mod; spec.loader.exec_module(mod)
+fresh_sq = mod.square.to_model_proto().SerializeToString()
+fresh_cu = mod.cube.to_model_proto().SerializeToString()
+kw0 = dict(mod.square.kwargs)
+mod.square.to_model_proto(ir_version=7, producer_name="history")
+bad = 0
+if mod.square.to_model_proto().SerializeToString() != fresh_sq:
+    print("square.to_model_proto() differs after an earlier call with options (ir_version=7, producer_name='history')"); bad += 1
+if mod.cube.to_model_proto().SerializeToString() != fresh_cu:
+    print("cube.to_model_proto() differs after square.to_model_proto(ir_version=7, ...)"); bad += 1
+if dict(mod.square.kwargs) != kw0:
+    print("square.kwargs changed:", kw0, "->", dict(mod.square.kwargs)); bad += 1
+sys.exit(1 if bad else 0)
+'''
+
+
 def replay(ob):
+    if "C14.to_model_proto." in ob["name"]:
+        return TO_MODEL_PROTO
     if "C14.folding.provenance" in ob["name"]:
         return PROVENANCE
     if "C14.graph_pattern.output_nodes" in ob["name"]:
